@@ -4507,7 +4507,11 @@ func (r *RoutingPolicy) AddPolicy(x *Policy, refer bool) (err error) {
 	name := x.Name
 	y, ok := pMap[name]
 	if refer {
-		err = x.FillUp(sMap)
+		// a statement that is referred to but not defined: nothing is
+		// stored, nothing is merged into an existing policy
+		if err = x.FillUp(sMap); err != nil {
+			return err
+		}
 	} else {
 		for _, st := range x.Statements {
 			if _, ok := sMap[st.Name]; ok {
